@@ -70,8 +70,8 @@ Lemma classify_cases st c m s :
       match s_act s with
       | None => if full then ADrop else AEnq
       | Some c' => if c' =? c then (if full then AErr else AEnq)
-                   else if mem_n c' (st_dying st) then (if full then ASkip else AMaybe)
-                   else (if full then ABlock else AEnq)
+                   else if full then (if mem_n c' (st_dying st) then ASkip else ABlock)
+                   else AEnq
       end
     else ANone.
 Proof.
@@ -88,7 +88,7 @@ Proof.
   destruct (has_match (s_subs s) (m_topic m)); [|reflexivity].
   destruct (s_act s) as [c'|]; cbn [option_eqb andb].
   - destruct (c' =? c); [destruct (is_full _ _); reflexivity|].
-    destruct (mem_n c' (st_dying st)); destruct (is_full _ _); reflexivity.
+    destruct (is_full _ _); [destruct (mem_n c' (st_dying st))|]; reflexivity.
   - destruct (is_full _ _); reflexivity.
 Qed.
 
@@ -103,7 +103,7 @@ Proof.
   destruct (has_match (s_subs s) (m_topic m)); [|reflexivity].
   destruct (s_act s) as [c'|]; cbn [andb].
   - destruct (c' =? c); cbn [negb andb]; [destruct (is_full _ _); reflexivity|].
-    destruct (mem_n c' (st_dying st)); destruct (is_full _ _); reflexivity.
+    destruct (is_full _ _); [destruct (mem_n c' (st_dying st))|]; cbn; rewrite ?andb_false_r; reflexivity.
   - destruct (is_full _ _); reflexivity.
 Qed.
 
@@ -191,18 +191,17 @@ Proof.
     + destruct (c' =? c).
       * destruct full; cbn [deliver]; [rewrite kept_refl; reflexivity|].
         destruct (mem_key k got); [rewrite enqueue_gained, orb_true_r|rewrite kept_refl]; reflexivity.
-      * destruct (mem_n c' (st_dying st)); destruct full; cbn [deliver]; try (rewrite kept_refl; reflexivity);
-          (destruct (mem_key k got); [rewrite enqueue_gained, orb_true_r|rewrite kept_refl]; reflexivity).
+      * destruct full; [destruct (mem_n c' (st_dying st)); cbn [deliver]; rewrite kept_refl; reflexivity|].
+        cbn [deliver]. destruct (mem_key k got); [rewrite enqueue_gained, orb_true_r|rewrite kept_refl]; reflexivity.
     + destruct full; cbn [deliver]; [rewrite kept_refl; reflexivity|].
       destruct (mem_key k got); [rewrite enqueue_gained, orb_true_r|rewrite kept_refl]; reflexivity.
   - destruct (Hok eq_refl) as [He Hb].
     destruct (s_act s) as [c'|].
     + destruct (c' =? c).
       * destruct full; cbn [is_err] in He; [discriminate|]. cbn [deliver]. apply enqueue_gained.
-      * destruct (mem_n c' (st_dying st)); destruct full; cbn [deliver is_block] in *; try discriminate.
-        -- rewrite kept_refl; reflexivity.
-        -- destruct (mem_key k got); [rewrite enqueue_gained, orb_true_r|rewrite kept_refl]; reflexivity.
-        -- apply enqueue_gained.
+      * destruct full.
+        -- destruct (mem_n c' (st_dying st)); cbn [deliver is_block andb] in *; [apply kept_refl|discriminate].
+        -- rewrite andb_false_r. cbn [deliver]. apply enqueue_gained.
     + destruct full; cbn [deliver]; [apply kept_refl|apply enqueue_gained].
 Qed.
 
